@@ -399,7 +399,7 @@ func (g *typeGen) structType(t *rapid.T, depth int) TypeDesc {
 		} else if g.cfg.Pool && g.cfg.Tags && rapid.IntRange(0, 9).Draw(t, "zeroer") == 0 {
 			// IsZeroer types (value and pointer receiver, by value and by
 			// pointer) are what omitempty consults: make them common
-			zt := TypeDesc{Kind: "pool", Pool: rapid.SampledFrom([]string{"ZeroVal", "ZeroPtr", "ZInt", "ZF64", "ZFlag", "ZU8"}).Draw(t, "zeroert")}
+			zt := TypeDesc{Kind: "pool", Pool: rapid.SampledFrom([]string{"ZeroVal", "ZeroPtr", "ZInt", "ZF64", "ZFlag", "ZU8", "ZStr", "ZList"}).Draw(t, "zeroert")}
 			if rapid.IntRange(0, 3).Draw(t, "zeroerp") == 0 {
 				zt = TypeDesc{Kind: "ptr", Elem: &TypeDesc{Kind: "pool", Pool: zt.Pool}}
 			}
